@@ -651,22 +651,23 @@ namespace fixedmath
       if( fixed_unlikely(value.v < 0 || value.v >= (1ll<<48)) )
         return std::numeric_limits<fixed_t>::quiet_NaN();
 
-      value.v <<= 16;
+      //unsigned arithmetic, value shifted by 16 bits needs up to 64 bits and result + pwr4 * 2 reaches 2^63
+      fixed_internal_unsigned val { static_cast<fixed_internal_unsigned>(value.v) << 16 };
       
-      fixed_internal pwr4 { detail::highest_pwr4_clz(value.v) };
+      fixed_internal_unsigned pwr4 { static_cast<fixed_internal_unsigned>(detail::highest_pwr4_clz(val)) };
       
-      fixed_internal result{};
+      fixed_internal_unsigned result{};
       while( pwr4 != 0 )
         {
-        if( value.v >= ( result + pwr4 ) )
+        if( val >= ( result + pwr4 ) )
           {
-          value.v -= result + pwr4;
+          val -= result + pwr4;
           result += pwr4 << 1;
           }
         result >>= 1;
         pwr4 >>= 2;
         }
-      return as_fixed(result);
+      return as_fixed(static_cast<fixed_internal>(result));
       }
       
     [[ nodiscard, gnu::const]]
